@@ -17,8 +17,12 @@ CONSTANTS
  DevFetchAclOnRequestName = FALSE
  DevStaleOwnedOnSessionReplace = FALSE
  DevLeaseErrMisindexed = FALSE
+ MidOn = FALSE
+ DevAclCacheNoAction = FALSE
+ DevLateAcquireAfterRelease = FALSE
+ DevReacquireUnconditional = FALSE
 INIT Init
 NEXT Next
-INVARIANTS C24_NoEffect C24_AuthError C24_NoLeak C19_AckOnlyIfHeld C19_NoWriteUnlessHeld C19_RefusalCode C19_NotLeaderForOtherOwner OwnsImpliesKey KnownHavePartitions
+INVARIANTS C24_NoEffect C24_AuthError C24_NoLeak C19_AckOnlyIfHeld C19_NoWriteUnlessHeld C19_RefusalCode C19_NotLeaderForOtherOwner OwnsImpliesKey KnownHavePartitions Exclusive
 VIEW View
 CHECK_DEADLOCK FALSE
